@@ -188,7 +188,9 @@ def remove (c : List Entry) (u : Uri) : List Entry := c.filter (fun e => e.key !
 
 def hasKey (c : List Entry) (u : Uri) : Bool := c.any (fun e => e.key == u)
 
-/-- `__setitem__`: an existing item keeps its stamp, its value is replaced; a new item is stamped `now` -/
+/-- `__setitem__`: an existing item keeps its stamp, its value is replaced; a new item is stamped `now`.  Key and
+    value are inserted in ONE step: the `_Item` is built with its value before `dict.__setitem__` makes it visible to the
+    lock-free readers (regenerated obligation `lruEntryCells`, `Props/C16.lean: lru_entry_published_with_value`). -/
 def setItem (c : List Entry) (u : Uri) (t : Tmpl) (now : Nat) : List Entry :=
   if hasKey c u then c.map (fun e => if e.key = u then { e with val := t } else e)
   else c ++ [⟨u, t, now⟩]
